@@ -164,6 +164,11 @@ def gen(rng, tier, i):
         tunnel("h%d" % r, down + rng.choice([0, 5, 200]), True)
         if up is not None and rng.random() < 0.5:
             tunnel("during%d" % r, down + max(1, (up - down) // 2), False)
+        if up is not None and rng.random() < 0.3:
+            # many requests keep arriving while the upstream is away (failure counters, leaked permits, growing back-off ...)
+            nst = rng.choice([8, 12, 20, 40])
+            for q in range(nst):
+                tunnel("storm%d_%d" % (r, q), down + 1 + (up - down - 2) * q // nst, False)
     # probes after the last heal
     probes = []
     if last_up is not None:
@@ -271,4 +276,5 @@ def probes(plan, out):
     overl = any(t.get("place") in ("connected", "connecting", "mid") for t in meta["tunnels"])
     okp = sum(1 for p in meta["probes"] if R.ok and tunnel_ok(R, [t for t in meta["tunnels"] if t["cid"] == p][0]))
     return {"nontrivial": overl, "probes_ok": okp, "probes_total": len(meta["probes"]), "quic": meta["kind"] == "quic", "blackhole": meta["outage"] == "blackhole",
-            "repeated_outages": len(meta["windows"]) > 1}
+            "repeated_outages": len(meta["windows"]) > 1,
+            "request_storm_during_outage": any(t["cid"].startswith("storm") for t in meta["tunnels"])}
